@@ -20,6 +20,15 @@ def dbTry {β : Type} (e : Eff (DbRes β)) : PM β := do
   | .ok v => pure v
   | .error _ => throw (1, "db")
 
+/-- `if c { return err }` as a statement (keeps the program a linear chain of binds). -/
+def failIf (c : Prop) [Decidable c] (e : E) : PM Unit := if c then throw e else pure ()
+/-- The same in the pure `Except` monad (per-proof / per-output checks). -/
+def failIfE (c : Prop) [Decidable c] (e : E) : Except E Unit := if c then throw e else pure ()
+
+/-- Propagate a pure check. -/
+def liftE {α : Type} (x : Except E α) : PM α := match x with | .ok a => pure a | .error e => throw e
+def failOpt (v : Option E) : PM Unit := match v with | some e => throw e | none => pure ()
+
 /-! Error table rows used below (tied to `Gen.errTable` in `Tie/Mint.lean`). -/
 def eStandard : E := (10000, "mint is currently unable to process request")
 def eUnknownKeyset : E := (12001, "unknown keyset")
@@ -91,22 +100,27 @@ def proofsSigAll (ps : List Proof) : Bool :=
     | .locked sa _ => sa
     | .nut10other sa => sa)
 
-/-- The per-proof gate of `verifyProofs` (loop body). -/
-def gate (mem : Mem) (p : Proof) : Except E Unit := do
-  if p.long then throw eSecretTooLong
+/-- Error of the NUT-11/14 input verifier for this proof, if any. -/
+def lockErr : Lock → Option E
+  | .locked _ (some e) => some e
+  | _ => none
+
+/-- The per-proof gate of `verifyProofs` (loop body), in source order. -/
+def gate (mem : Mem) (p : Proof) : Except E Unit :=
+  if p.long then .error eSecretTooLong else
   match p.ks with
-  | .unknown _ => throw eUnknownKeyset
+  | .unknown _ => .error eUnknownKeyset
   | .known i =>
-    if !mem.keysets.any (·.idx == i) then throw eUnknownKeyset
-    if !isKeyAmount p.amount then throw eInvalidProof
-    match p.lock with
-    | .locked _ (some e) => throw e
-    | _ => pure ()
-    match p.c with
-    | .nonhex _ => throw (10000, "bad-C-hex")
-    | .nonpoint _ => throw (10000, "bad-point")
-    | .other _ => throw eInvalidProof
-    | .sig k a s => if k == i && a == p.amount && s == p.secret then pure () else throw eInvalidProof
+    if !mem.keysets.any (·.idx == i) then .error eUnknownKeyset else
+    if !isKeyAmount p.amount then .error eInvalidProof else
+    match lockErr p.lock with
+    | some e => .error e
+    | none =>
+      match p.c with
+      | .nonhex _ => .error (10000, "bad-C-hex")
+      | .nonpoint _ => .error (10000, "bad-point")
+      | .other _ => .error eInvalidProof
+      | .sig k a s => if k == i && a == p.amount && s == p.secret then .ok () else .error eInvalidProof
 
 def gateAll (mem : Mem) : List Proof → Except E Unit
   | [] => pure ()
@@ -126,28 +140,26 @@ structure Cx where
 /-! ## verifyProofs / signBlindedMessages -/
 
 def verifyProofs (cx : Cx) (ps : List Proof) : PM Unit := do
-  if ps.isEmpty then throw eNoProofs
+  failIf (ps.isEmpty) eNoProofs
   let ys := ps.map (fun p => YRef.known p.secret)
   let pending ← dbTry (.getPending ys)
-  if !pending.isEmpty then throw eProofPending
+  failIf (!pending.isEmpty) eProofPending
   let used ← dbTry (.getProofsUsed ys)
-  if !used.isEmpty then throw eProofUsed
-  if dupProofs ps then throw eDupProofs
-  match gateAll cx.mem ps with
-  | .ok _ => pure ()
-  | .error e => throw e
+  failIf (!used.isEmpty) eProofUsed
+  failIf (dupProofs ps) eDupProofs
+  liftE (gateAll cx.mem ps)
 
-def signOne (mem : Mem) (m : BMsg) : Except E BSig := do
-  if !memHas mem m.ks then throw eUnknownKeyset
+def signOne (mem : Mem) (m : BMsg) : Except E BSig :=
+  if !memHas mem m.ks then .error eUnknownKeyset else
   match m.ks with
-  | .unknown _ => throw eUnknownKeyset
+  | .unknown _ => .error eUnknownKeyset
   | .known i =>
-    if i != mem.active then throw eInactiveKeyset
-    if !isKeyAmount m.amount then throw eInvalidBMAmount
+    if i != mem.active then .error eInactiveKeyset else
+    if !isKeyAmount m.amount then .error eInvalidBMAmount else
     match m.b with
-    | .nonhex _ => throw (10000, "bad-B-hex")
-    | .nonpoint _ => throw (10000, "bad-point")
-    | .pt b => pure { b := b, amount := m.amount, ks := i }
+    | .nonhex _ => .error (10000, "bad-B-hex")
+    | .nonpoint _ => .error (10000, "bad-point")
+    | .pt b => .ok { b := b, amount := m.amount, ks := i }
 
 def signAll (mem : Mem) : List BMsg → Except E (List BSig)
   | [] => pure []
@@ -172,12 +184,12 @@ inductive PkReq where
 
 /-- `Mint.RequestMintQuote`; `qid` is the id the new quote gets (creation order). -/
 def requestMintQuote (cx : Cx) (qid : Nat) (amount : UInt64) (unitSat : Bool) (pk : PkReq) : PM MintQ := do
-  if !unitSat then throw (11005, "unit-not-supported")
-  if pk == .bad then throw (10000, "bad-pubkey")
-  if cx.cfg.maxMint > 0 && amount > cx.cfg.maxMint then throw eMintAmountExceeded
+  failIf (!unitSat) (11005, "unit-not-supported")
+  failIf (pk == .bad) (10000, "bad-pubkey")
+  failIf (cx.cfg.maxMint > 0 && amount > cx.cfg.maxMint) eMintAmountExceeded
   if cx.cfg.maxBalance > 0 then
     let balance ← totalBalance
-    if balance + amount > cx.cfg.maxBalance then throw eMintingDisabled
+    failIf (balance + amount > cx.cfg.maxBalance) eMintingDisabled
   match ← eff (.lnCreateInvoice amount) with
   | none => throw (2, "ln")
   | some h =>
@@ -203,29 +215,31 @@ def getMintQuoteState (qid : Int) : PM MintQ := do
         else pure q
     else pure q
 
+/-- NUT-20: a quote locked to `pk` needs a signature by `pk` over (quote id, the submitted `B_`s in order). -/
+def quoteSigOk (q : MintQ) (bs : List Nat) (sig : QSig) : Bool :=
+  match q.pubkey with
+  | none => true
+  | some pk =>
+    match sig with
+    | .signed k quote sbs => k == pk && quote == (q.id : Int) && sbs == bs
+    | _ => false
+
 /-- The closure inside `MintTokens` (state PAID). -/
 def mintInner (cx : Cx) (q : MintQ) (outs : List BMsg) (sig : QSig) : PM (List BSig) := do
   dbTry (.updateMintQuoteState q.id .pending)
   match amountChecked (outAmounts outs) with
   | none => throw eInvalidBMAmount
   | some total =>
-    if dupOutputs outs then throw eDupOutputs
-    if total > q.amount then throw eOutputsOverQuote
+    failIf (dupOutputs outs) eDupOutputs
+    failIf (total > q.amount) eOutputsOverQuote
     let bs := outs.map (·.b.sid)
     let existing ← dbTry (.getSigs bs)
-    if !existing.isEmpty then throw eAlreadySigned
-    match q.pubkey with
-    | none => pure ()
-    | some pk =>
-      match sig with
-      | .signed k quote sbs => if k == pk && quote == (q.id : Int) && sbs == bs then pure () else throw eInvalidSig
-      | _ => throw eInvalidSig
-    match signAll cx.mem outs with
-    | .error e => throw e
-    | .ok sigs =>
-      dbTry (.updateMintQuoteState q.id .issued)
-      dbTry (.saveSigs sigs)
-      pure sigs
+    failIf (!existing.isEmpty) eAlreadySigned
+    failIf (!quoteSigOk q bs sig) eInvalidSig
+    let sigs ← liftE (signAll cx.mem outs)
+    dbTry (.updateMintQuoteState q.id .issued)
+    dbTry (.saveSigs sigs)
+    pure sigs
 
 /-- `Mint.MintTokens`. -/
 def mintTokens (cx : Cx) (qid : Int) (outs : List BMsg) (sig : QSig) : PM (List BSig) := do
@@ -261,24 +275,19 @@ def swap (cx : Cx) (ps : List Proof) (outs : List BMsg) (outputsVerdict : Option
   match amountChecked (outAmounts outs) with
   | none => throw eInvalidBMAmount
   | some outTotal =>
-    if dupOutputs outs then throw eDupOutputs
+    failIf (dupOutputs outs) eDupOutputs
     let fees := transactionFees cx.mem ps
     let (minusFees, under) := underflowSub proofsAmount fees
-    if under then throw eInvalidProofAmount
-    if minusFees < outTotal then throw eInsufficient
+    failIf (under) eInvalidProofAmount
+    failIf (minusFees < outTotal) eInsufficient
     verifyProofs cx ps
     let existing ← dbTry (.getSigs (outs.map (·.b.sid)))
-    if !existing.isEmpty then throw eAlreadySigned
-    if proofsSigAll ps then
-      match outputsVerdict with
-      | some e => throw e
-      | none => pure ()
-    match signAll cx.mem outs with
-    | .error e => throw e
-    | .ok sigs =>
-      dbTry (.saveProofs (ps.map Proof.row))
-      dbTry (.saveSigs sigs)
-      pure sigs
+    failIf (!existing.isEmpty) eAlreadySigned
+    failOpt (if proofsSigAll ps then outputsVerdict else none)
+    let sigs ← liftE (signAll cx.mem outs)
+    dbTry (.saveProofs (ps.map Proof.row))
+    dbTry (.saveSigs sigs)
+    pure sigs
 
 /-! ## Melt -/
 
@@ -291,12 +300,12 @@ def ceilSat (msat : UInt64) : UInt64 := (msat + 999) / 1000
 
 /-- `Mint.RequestMeltQuote`; `msatOf` is what `decodepay` reads from the invoice. -/
 def requestMeltQuote (cx : Cx) (qid : Nat) (inv : InvReq) (msatOf : Nat → UInt64) (unitSat : Bool) (mpp : Option UInt64) : PM MeltQ := do
-  if !unitSat then throw (11005, "unit-not-supported")
+  failIf (!unitSat) (11005, "unit-not-supported")
   match inv with
   | .bad => throw (20009, "bad-invoice")
   | .inv h =>
     let msat := msatOf h
-    if msat == 0 then throw (20009, "invoice-no-amount")
+    failIf (msat == 0) (20009, "invoice-no-amount")
     let invoiceSat := ceilSat msat
     let isInternal := match ← eff (.getMintQuoteByHash h) with
       | .ok _ => true
@@ -309,7 +318,7 @@ def requestMeltQuote (cx : Cx) (qid : Nat) (inv : InvReq) (msatOf : Nat → UInt
           else if m ≥ msat then throw (20009, "mpp-not-less")
           else pure (true, m, ceilSat m)
         else throw (20009, "mpp-unsupported") : PM (Bool × UInt64 × UInt64))
-    if cx.cfg.maxMelt > 0 && quoteAmount > cx.cfg.maxMelt then throw eMeltAmountExceeded
+    failIf (cx.cfg.maxMelt > 0 && quoteAmount > cx.cfg.maxMelt) eMeltAmountExceeded
     match ← eff (.getMeltQuoteByReq h) with
     | .ok _ => throw eMeltQuoteExists
     | .error _ => pure ()
@@ -361,12 +370,12 @@ def meltTokens (cx : Cx) (qid : Int) (ps : List Proof) : PM MeltQ := do
   match ← eff (.getMeltQuote qid) with
   | .error _ => throw eQuoteNotExist
   | .ok q =>
-    if q.state == .paid then throw eMeltAlreadyPaid
-    if q.state == .pending then throw eQuotePending
+    failIf (q.state == .paid) eMeltAlreadyPaid
+    failIf (q.state == .pending) eQuotePending
     verifyProofs cx ps
     let fees := transactionFees cx.mem ps
-    if proofsAmount < q.amount + q.feeReserve + fees then throw eInsufficient
-    if proofsSigAll ps then throw eSigAllOnlySwap
+    failIf (proofsAmount < q.amount + q.feeReserve + fees) eInsufficient
+    failIf (proofsSigAll ps) eSigAllOnlySwap
     dbTry (.addPending (ps.map Proof.row) q.id)
     dbTry (.updateMeltQuote q.id 0 .pending)
     let q := { q with state := .pending }
